@@ -251,6 +251,23 @@ PROPS = {
         ],
         "level_text": "Lean theorems over ALL server scripts (dial outcome x write outcome x any finite sequence of read events: any bytes in any chunking with any delays, EOF, reset, silence x peer acknowledging our FIN or not x any cancellation instant) and all timeout settings: C09_decision (record for the probed target iff connected, greeting sent and the first two reply bytes, as bytes with arrival instants, are 05 00), C09_record, C09_otherwise (nil,nil iff two other bytes were seen; error iff the reply was not seen), C09_greeting / C09_method_request (the request is 05 01 00; WriteTo for every method list), C09_reads_le_two, C09_time_bound (elapsed <= connect timeout + 3 data timeouts), C09_cancel_prompt (a cancelled probe is over by the cancellation instant, no deadline hypothesis), C09_cancel_late, C09_blocking_close_breaks_bound (why SetLinger must not be positive). Constants incl. the SetLinger argument are regenerated from the source each run. Tied to the code by the real Scanner.Scan against scripted loopback TCP servers (all first/second reply bytes, thorough: all 65536 replies; splits, drip feed, late bytes, extra bytes, floods, close/reset/stall at every step, full accept queue, cancellation before/during dial and during either read, peer turning unreachable in a private network namespace) with outcome, greeting seen by the server and wall time compared with the model, and by the real socksConn/WriteTo/ReadFrom over a recording in-memory conn (call-by-call trace).",
         "level_note": "Trusted: Lean kernel; the net/kernel model is validated differentially, not proved; the time theorems are theorems of the timed model under h_deadline (wall-clock behaviour is measured with 250 ms slack, not proved).",
+    "C03": {
+        "modules": ["SxVerif.Props.C03"],
+        "components": ["bpf", "proc"],
+        "trusted_base": [
+            "modelled, not verified: libpcap's filter compiler + the BPF interpreter, as the denotation Model/Bpf.lean gives to exactly the expressions tcp.BPFFilter / tcp.SYNACKBPFFilter / icmp.BPFFilter / arp.BPFFilter can produce, on DLT_EN10MB and DLT_IPV4 (three-valued: an out-of-range load rejects; IPv6 branches of `tcp` and `src portrange`; fragment test on the offset only; /0 drops the dead address load; swapped port bounds). Validated on every run by compiling the REAL filter strings with the real libpcap for the link type sx opens and executing the program in golang.org/x/net/bpf's VM on the same frames; the kernel's own interpreter and its truncation of delivered frames to the snap length (1518 / 64 bytes, beyond every header the processors read) are not exercised",
+            "modelled, not verified: gopacket decoders and DecodingLayerParser loop (Model/Frame.lean, shared with C06), validated by component proc and again inside component bpf",
+            "wiring table (per command: filter function, processor constructor, scan-type constant, packet filter, flag printer, vpn flag on socket and processor, engine) and the facts about startPacketScanEngine / afpacket.Source regenerated by sxfacts (harness/cmd/sxfacts/wiring.go) from command/*.go, pkg/scan/*/, pkg/packet/afpacket on every run; the harness builds its real processors and real filter strings from the same regenerated rows",
+        ],
+        "assumptions": [
+            "the frame is read while the engine runs ('arrives before the scan exits' is C16's clause)",
+            "RangeOK: the target subnet is a network address without host bits and prefix <= 32 (what net.ParseCIDR returns, C02), port ranges have lo <= hi <= 65535 (C18; the port generator refuses lo > hi)",
+            "the kernel delivers to the socket exactly the frames the installed program accepts, each once",
+            "frames are not longer than the snap length the program returns (1518; arp 64), or truncating them to it is harmless: the processors and the reply shape read only the first 134 (arp: 42) bytes; stated, not proved, as def C03_snaplen_full",
+            "spec decisions of DESIGN.md C03 (a)-(d): NS is not one of 'the flags SYN+ACK'; the SYN-scan record prints no flag letters; an IPv4 TLV option of length 2 is not well-formed (gopacket refuses it); trailing link-layer padding is allowed",
+        ],
+        "level_text": "Lean theorems C03_exact / C03_iff / C03_property_form / C03_history / C03_chunks / C03_filters_compile over the wiring table regenerated from command/*.go on every run (wiring_compatible, wiring_complete, engine_facts are decided by the kernel on the regenerated data): for every packet-scan command row, with and without --vpn, every valid range (any subnet or none, any list of port ranges, hence every chunk of startPortScanEngine), every prior contents of the processor's reused decoder structs and every byte string on the wire, the installed BPF filter followed by the processor puts on the result channel exactly Spec.Reply.replyRecord of that frame: the record made of the frame's own source address, source port and flag letters / ICMP type, code, TTL / sender MAC if the frame is a well-formed unfragmented frame of the scanned protocol (flat offset-defined header chain of Spec/Frame.lean) whose source lies in the target subnet, whose source port lies in one of the ranges being scanned, whose TCP byte 13 is exactly 0x12 for the SYN scan and whose ICMP type is not 8 -- and nothing for any other byte string; at most one record per frame; for whole captures frame by frame independently of history. Proof: both directions of decoder <-> flat header chain (C06 gives record => chain; the converse forward-decoding lemmas are new), filter denotation collapsed to byte conditions on frames with a chain, netmask arithmetic (a AND mask = net <=> equal prefixes). Tied to the code by the translator (wiring) and by component bpf: real filter strings (render, byte for byte), real libpcap + BPF VM and real processors on frames aimed at the range, one-field-off variants, truncations at every header boundary, IPv6 / VLAN / fragments and all malformed families, with the Spec verdict evaluated on the observed outcome.",
+        "level_note": "Trusted: Lean kernel; sxfacts reads the wiring faithfully (cross-checked: the harness runs the rows it reports); libpcap/BPF and gopacket semantics are models validated differentially on every run (quick: 450 ranges x 8-14 frames + 300 render cases + 1.5k processor histories), not proved; kernel delivery and snap-length truncation are assumptions.",
     },
     "C18": {
         "modules": ["SxVerif.Props.C18"],
